@@ -92,6 +92,9 @@ def make_items(seed, shard, nshards, tier):
                     items.append({"id": f"unordered/{name}/{p}/{q}", "kind": "from_etree", "cls": name, "seedstr": f"{seedstr}/u{q}", "profile": "max", "unordered": True})
     for j in range(8 if tier == "quick" else 40):
         items.append({"id": f"ty/{shard}/{j}", "kind": "types", "seedstr": f"C17t/{seed}/{shard}/{j}"})
+    # date-times at the two ends of the calendar (normalising them to UTC overflows), each followed by an ordinary conversion under a watchdog
+    for j, text in enumerate(("00010101000000.000[+1:CET]", "99991231235959[-5:EST]", "00010101000000[+14]", "99991231235959.999[-12]")):
+        items.append({"id": f"edge/{shard}/{j}", "kind": "edgedate", "text": text, "seedstr": "edge"})
     # harness-written version-1 files in each single-byte character set, with characters that differ between them
     for j, cs in enumerate(("1252", "ISO-8859-1", "NONE")):
         items.append({"id": f"cs/{shard}/{cs}", "kind": "charsetdoc", "charset": cs, "seedstr": f"C17c/{seed}/{shard}/{j}"})
@@ -178,6 +181,19 @@ def run_item(item, imm):
             v = dt.convert(text)
             out.append((text, v.isoformat(), dt.unconvert(v), tm.unconvert(tm.convert(text[8:])), str(dec.convert(f"{rng.randint(0, 10**6)},5"))))
         return fp(out)
+    if kind == "edgedate":
+        from ofxtools import Types as T
+        try:
+            first = ["ok", T.DateTime().convert(item["text"]).isoformat()]
+        except Exception as e:
+            first = ["raised", type(e).__name__]
+        box = []
+        th = threading.Thread(target=lambda: box.append(T.DateTime().convert("20200101120000.000[-5:EST]").isoformat()), daemon=True)
+        th.start()
+        th.join(20)
+        if th.is_alive():
+            return ["hung"]  # something taken during the failing conversion was never given back
+        return [first, box]
     if kind == "charsetdoc":
         cs = item["charset"]
         codec = {"1252": "cp1252", "ISO-8859-1": "latin_1", "NONE": "utf_8"}[cs]
@@ -244,6 +260,20 @@ def run_item(item, imm):
         es = etree_snap(elem)
         model = Aggregate.from_etree(elem)
         imm.check("tree-mutated-by-from_etree", es, etree_snap(elem), item)
+        # the same tree as a pretty-printer leaves it (whitespace text in aggregates, whitespace tails): whether it converts is not
+        # judged here - that it comes back untouched is
+        import copy as _copy
+        ind = _copy.deepcopy(elem)
+        for node in ind.iter():
+            if len(node):
+                node.text = "\n    "
+            node.tail = "\n  "
+        es2 = etree_snap(ind)
+        try:
+            Aggregate.from_etree(ind)
+        except Exception:  # noqa
+            pass
+        imm.check("indented-tree-mutated-by-from_etree", es2, etree_snap(ind), item)
         return fp(modelwalk.snap(model, exact=True))
     ver, pretty, close = FORMS[item["form"]]
     before_model = modelwalk.snap(inst, exact=True)
@@ -335,6 +365,8 @@ def baseline_main(argv):
             res[it["id"]] = run_item(it, imm)
         except Exception as e:
             res[it["id"]] = ["item-raised", type(e).__name__, str(e)[:100]]
+        if res[it["id"]] == ["hung"]:
+            break
     with open(out, "w") as f:
         json.dump({"results": res, "imm_compared": imm.compared, "imm_violations": [(w, i) for w, i, _ in imm.violations], "state": state_fp()}, f)
 
@@ -414,10 +446,18 @@ def cold_phase(ctx, items, base, T, only="-"):
     ctx.count("cold_cross_thread_switches", doc["switches"])
 
 
+class Hung(Exception):
+    """The process under observation is stuck for good: nothing after this point can be trusted to return."""
+
+
 def compare(ctx, phase, item, got, base):
     want = base.get(item["id"])
     ctx.ev()
     ctx.count(f"{phase}_results_compared")
+    if got == ["hung"] or want == ["hung"]:
+        ctx.violation("conversion-hangs-after-failing-input", f"{item['id']} ({phase}): an ordinary date-time conversion did not return within 20 s after {item.get('text')!r} had been converted",
+                      {"item": item, "phase": phase})
+        raise Hung()
     if want is None:
         ctx.inconclusive_because(f"no baseline for {item['id']}")
         return
@@ -427,6 +467,13 @@ def compare(ctx, phase, item, got, base):
 
 
 def run_shard(ctx):
+    try:
+        _run_shard(ctx)
+    except Hung:
+        ctx.note("stopped early: the interpreter under observation is stuck (see the violation)")
+
+
+def _run_shard(ctx):
     from vf.monitors.linemon import LineMon
 
     ref_sgml.selftest()
